@@ -208,6 +208,16 @@ func runCheck(o *CheckOpts) int {
 						if r.Status == "unsat" || r.Status == "sat" {
 							break
 						}
+						// every solver gave up quickly (unknown, no timeout): more time will not help
+						gaveUp := true
+						for _, tr := range r.Tried {
+							if strings.Contains(tr, ":timeout:") {
+								gaveUp = false
+							}
+						}
+						if gaveUp && k >= 1 {
+							break
+						}
 					}
 					if r.Status == "sat" {
 						// obtain a model
@@ -227,6 +237,7 @@ func runCheck(o *CheckOpts) int {
 
 	// extra checkers (schema tables, structural) contribute obligations of their own
 	extraRes := runExtraCheckers(prog, pc, o)
+	extraRes = append(extraRes, runSpecLemmas(prog, o, tmp, timeout)...)
 
 	// classify
 	violations := 0
